@@ -12,56 +12,56 @@ import (
 	"verif/harness/fakeerr"
 )
 
-var literalHandlers = map[string]func(k int64, e bool, rec *recorder) any{
-	`(sig () () 0)`: func(k int64, e bool, rec *recorder) any {
+var literalHandlers = map[string]func(k int64, e errKind, rec *recorder) any{
+	`(sig () () 0)`: func(k int64, e errKind, rec *recorder) any {
 		return func() { rec.record() }
 	},
-	`(sig () (err) 0)`: func(k int64, e bool, rec *recorder) any {
-		return func() error { rec.record(); return behErr(k, e) }
+	`(sig () (err) 0)`: func(k int64, e errKind, rec *recorder) any {
+		return func() error { rec.record(); return rec.ret(behErr(k, e)) }
 	},
-	`(sig () (i64) 0)`: func(k int64, e bool, rec *recorder) any {
+	`(sig () (i64) 0)`: func(k int64, e errKind, rec *recorder) any {
 		return func() int64 { rec.record(); return k }
 	},
-	`(sig () (str err) 0)`: func(k int64, e bool, rec *recorder) any {
-		return func() (string, error) { rec.record(); return strconv.FormatInt(k, 10), behErr(k, e) }
+	`(sig () (str err) 0)`: func(k int64, e errKind, rec *recorder) any {
+		return func() (string, error) { rec.record(); return strconv.FormatInt(k, 10), rec.ret(behErr(k, e)) }
 	},
-	`(sig (i64) (i64) 0)`: func(k int64, e bool, rec *recorder) any {
+	`(sig (i64) (i64) 0)`: func(k int64, e errKind, rec *recorder) any {
 		return func(a int64) int64 { rec.record(a); return k }
 	},
-	`(sig (any) (any err) 0)`: func(k int64, e bool, rec *recorder) any {
-		return func(a any) (any, error) { rec.record(a); return k, behErr(k, e) }
+	`(sig (any) (any err) 0)`: func(k int64, e errKind, rec *recorder) any {
+		return func(a any) (any, error) { rec.record(a); return k, rec.ret(behErr(k, e)) }
 	},
-	`(sig ((sl i64)) (str err) 0)`: func(k int64, e bool, rec *recorder) any {
-		return func(a []int64) (string, error) { rec.record(a); return strconv.FormatInt(k, 10), behErr(k, e) }
+	`(sig ((sl i64)) (str err) 0)`: func(k int64, e errKind, rec *recorder) any {
+		return func(a []int64) (string, error) { rec.record(a); return strconv.FormatInt(k, 10), rec.ret(behErr(k, e)) }
 	},
-	`(sig ((m str any) bool) (i64) 0)`: func(k int64, e bool, rec *recorder) any {
+	`(sig ((m str any) bool) (i64) 0)`: func(k int64, e errKind, rec *recorder) any {
 		return func(a map[string]any, b bool) int64 { rec.record(a, b); return k }
 	},
-	`(sig (str f64 any) ((m str any) err) 0)`: func(k int64, e bool, rec *recorder) any {
+	`(sig (str f64 any) ((m str any) err) 0)`: func(k int64, e errKind, rec *recorder) any {
 		return func(a string, b float64, c any) (map[string]any, error) {
 			rec.record(a, b, c)
-			return map[string]any{strconv.FormatInt(k, 10): k}, behErr(k, e)
+			return map[string]any{strconv.FormatInt(k, 10): k}, rec.ret(behErr(k, e))
 		}
 	},
 	// variadic (D38)
-	`(sig ((sl i64)) (i64) 1)`: func(k int64, e bool, rec *recorder) any {
+	`(sig ((sl i64)) (i64) 1)`: func(k int64, e errKind, rec *recorder) any {
 		return func(xs ...int64) int64 { rec.record(xs); return k }
 	},
-	`(sig ((sl any)) (i64) 1)`: func(k int64, e bool, rec *recorder) any {
+	`(sig ((sl any)) (i64) 1)`: func(k int64, e errKind, rec *recorder) any {
 		return func(xs ...any) int64 { rec.record(xs); return k }
 	},
-	`(sig (i64 (sl i64)) () 1)`: func(k int64, e bool, rec *recorder) any {
+	`(sig (i64 (sl i64)) () 1)`: func(k int64, e errKind, rec *recorder) any {
 		return func(a int64, xs ...int64) { rec.record(a, xs) }
 	},
 	// a struct type named error as the last result (D35)
-	`(sig () (i64 (st "error" 0)) 0)`: func(k int64, e bool, rec *recorder) any {
+	`(sig () (i64 (st "error" 0)) 0)`: func(k int64, e errKind, rec *recorder) any {
 		return fakeerr.Int64AndFake(k, func() { rec.record() })
 	},
-	`(sig () (i64 (st "MyErr" 1)) 0)`: func(k int64, e bool, rec *recorder) any {
+	`(sig () (i64 (st "MyErr" 1)) 0)`: func(k int64, e errKind, rec *recorder) any {
 		return func() (int64, fakeerr.MyErr) { rec.record(); return k, fakeerr.MyErr{} }
 	},
 	// interface kinds other than any as the dynamic value result
-	`(sig () (err err) 0)`: func(k int64, e bool, rec *recorder) any {
-		return func() (error, error) { rec.record(); return tokErr{k}, behErr(k, e) }
+	`(sig () (err err) 0)`: func(k int64, e errKind, rec *recorder) any {
+		return func() (error, error) { rec.record(); return tokErr{k}, rec.ret(behErr(k, e)) }
 	},
 }
